@@ -805,6 +805,11 @@ func UnderMissingInput(in ssa.Instruction) bool {
 	return false
 }
 
+// NeverNilField, when set, reports that a struct field holds a freshly made
+// value from construction on and is never stored to again (see the rules
+// package): a test of it against nil goes one way.
+var NeverNilField func(f *types.Var) bool
+
 // DisableNilGuards switches the pruning of NilGuardEdges off (self-test).
 var DisableNilGuards bool
 
@@ -1098,6 +1103,46 @@ func NilGuardEdges(fn *ssa.Function) Cut {
 	}
 	missing := Cut{}
 	missingEdgeCache[fn] = missing
+	// tests of fields that are never nil
+	if NeverNilField != nil {
+		for _, b := range fn.Blocks {
+			if len(b.Instrs) == 0 || len(b.Succs) != 2 {
+				continue
+			}
+			iff, ok := b.Instrs[len(b.Instrs)-1].(*ssa.If)
+			if !ok {
+				continue
+			}
+			bo, ok := iff.Cond.(*ssa.BinOp)
+			if !ok || (bo.Op != token.EQL && bo.Op != token.NEQ) {
+				continue
+			}
+			var v ssa.Value
+			switch {
+			case IsNil(bo.Y):
+				v = bo.X
+			case IsNil(bo.X):
+				v = bo.Y
+			default:
+				continue
+			}
+			ld, ok := v.(*ssa.UnOp)
+			if !ok || ld.Op != token.MUL {
+				continue
+			}
+			fa, ok := ld.X.(*ssa.FieldAddr)
+			if !ok {
+				continue
+			}
+			if f := FieldOfAddr(fa); f != nil && NeverNilField(f) {
+				k := 0
+				if bo.Op == token.NEQ {
+					k = 1
+				}
+				cut[Edge{b, k}] = true
+			}
+		}
+	}
 	for _, b := range fn.Blocks {
 		nilSucc := nilTest(b)
 		if nilSucc < 0 {
